@@ -84,3 +84,135 @@ def gen_eigvals(A, B):
   ev, U = np.linalg.eigh((S + S.T) / 2)
   order = np.argsort(-ev)
   return ev[order], Bi.dot(U[:, order])
+
+
+# ----------------------------------------------------------------------------- NCA / MLKR / LMNN objectives
+
+def _sqdist_embedded(X, L):
+  Z = X.dot(L.T)
+  n = len(Z)
+  D = np.zeros((n, n))
+  for i in range(n):
+    for j in range(n):
+      v = Z[i] - Z[j]
+      D[i, j] = float(v.dot(v))
+  return D
+
+
+def _softmax_rows_excluding_self(D):
+  n = len(D)
+  P = np.zeros((n, n))
+  for i in range(n):
+    idx = [j for j in range(n) if j != i]
+    m = min(D[i, j] for j in idx)
+    e = {j: math.exp(-(D[i, j] - m)) for j in idx}
+    s = sum(e.values())
+    for j in idx:
+      P[i, j] = e[j] / s
+  return P
+
+
+def nca_value_grad(L, X, y):
+  """f(L) = sum_i sum_{j != i, y_j == y_i} p_ij (to be maximised) and df/dL."""
+  X = np.asarray(X, dtype=float)
+  n, d = X.shape
+  D = _sqdist_embedded(X, L)
+  P = _softmax_rows_excluding_self(D)
+  f = 0.0
+  S = np.zeros((d, d))
+  for i in range(n):
+    pi = sum(P[i, j] for j in range(n) if j != i and y[j] == y[i])
+    f += pi
+    for j in range(n):
+      if j == i:
+        continue
+      v = X[i] - X[j]
+      O = np.outer(v, v)
+      S += pi * P[i, j] * O
+      if y[j] == y[i]:
+        S -= P[i, j] * O
+  return f, 2.0 * L.dot(S), P
+
+
+def mlkr_value_grad(L, X, y):
+  """f(L) = sum_i (y_i - yhat_i)^2 with leave-one-out Gaussian kernel regression, and df/dL."""
+  X = np.asarray(X, dtype=float)
+  y = np.asarray(y, dtype=float)
+  n, d = X.shape
+  D = _sqdist_embedded(X, L)
+  P = _softmax_rows_excluding_self(D)
+  yhat = P.dot(y)
+  f = float(((yhat - y) ** 2).sum())
+  S = np.zeros((d, d))
+  for i in range(n):
+    for j in range(n):
+      if j == i:
+        continue
+      v = X[i] - X[j]
+      S += (yhat[i] - y[i]) * (yhat[i] - y[j]) * P[i, j] * np.outer(v, v)
+  return f, 4.0 * L.dot(S), P
+
+
+def lmnn_targets(X, y, k):
+  """k nearest same-class points in input space; also the smallest relative gap at the k-th boundary."""
+  X = np.asarray(X, dtype=float)
+  n = len(X)
+  T = []
+  gap = float('inf')
+  for i in range(n):
+    same = [j for j in range(n) if j != i and y[j] == y[i]]
+    ds = sorted((float(((X[i] - X[j]) ** 2).sum()), j) for j in same)
+    T.append([j for _, j in ds[:k]])
+    if len(ds) > k:
+      gap = min(gap, (ds[k][0] - ds[k - 1][0]) / max(ds[k][0], 1e-300))
+  return T, gap
+
+
+def lmnn_value_grad(L, X, y, T, reg):
+  """documented LMNN objective and gradient; also the smallest |hinge argument| (kink distance)."""
+  X = np.asarray(X, dtype=float)
+  n, d = X.shape
+  Z = X.dot(L.T)
+  pull = 0.0
+  push = 0.0
+  Spull = np.zeros((d, d))
+  Spush = np.zeros((d, d))
+  kink = float('inf')
+  n_active = 0
+  n_inactive = 0
+  mag = 0.0
+  for i in range(n):
+    for j in T[i]:
+      vij = X[i] - X[j]
+      dij = float(((Z[i] - Z[j]) ** 2).sum())
+      pull += dij
+      mag += reg * dij
+      Spull += np.outer(vij, vij)
+      for l in range(n):
+        if y[l] == y[i]:
+          continue
+        vil = X[i] - X[l]
+        dil = float(((Z[i] - Z[l]) ** 2).sum())
+        h = 1.0 + dij - dil
+        kink = min(kink, abs(h))
+        if h > 0:
+          push += h
+          mag += (1 - reg) * (1.0 + dij + dil)
+          Spush += np.outer(vij, vij) - np.outer(vil, vil)
+          n_active += 1
+        else:
+          n_inactive += 1
+  f = reg * pull + (1 - reg) * push
+  G = 2.0 * L.dot(reg * Spull + (1 - reg) * Spush)
+  return f, G, kink, n_active, n_inactive, mag
+
+
+def central_differences(fun, L, h):
+  G = np.zeros_like(L)
+  for idx in np.ndindex(*L.shape):
+    Lp = L.copy()
+    Lm = L.copy()
+    Lp[idx] += h
+    Lm[idx] -= h
+    G[idx] = (fun(Lp) - fun(Lm)) / (2 * h)
+  return G
